@@ -57,14 +57,14 @@ var verTypes = []verType{
 }
 
 type viewOp struct {
-	Type    int   `json:"type"`
-	View    int   `json:"view"` // 0 vVal 1 vValDuo 2 vPtrs 3 vPtrsP 4 vAll
-	Insert  bool  `json:"insert"`
-	Val     int16 `json:"val"`
-	Duo     int64 `json:"duo"`
-	P1, P2  int16
-	NullP1  bool `json:"null_p1"`
-	NullP2  bool `json:"null_p2"`
+	Type   int   `json:"type"`
+	View   int   `json:"view"` // 0 vVal 1 vValDuo 2 vPtrs 3 vPtrsP 4 vAll
+	Insert bool  `json:"insert"`
+	Val    int16 `json:"val"`
+	Duo    int64 `json:"duo"`
+	P1, P2 int16
+	NullP1 bool `json:"null_p1"`
+	NullP2 bool `json:"null_p2"`
 }
 
 type viewCase struct {
@@ -86,9 +86,9 @@ func compatible(v int, t verType) bool {
 
 // state of a Ver* struct as read through the schema's layout (what the generated accessors return)
 type verState struct {
-	val      int16
-	duo      int64
-	p1, p2   int16
+	val        int16
+	duo        int64
+	p1, p2     int16
 	has1, has2 bool
 }
 
@@ -316,8 +316,8 @@ func runViews(c viewCase) (pbt.Result, error) {
 
 var _ = pbt.Register(pbt.Spec[viewCase]{
 	Property: "C19", Name: "shared-views",
-	Rule:     "2-10 operations, each inserting a value of, or extracting into, one of five small Go view types (data fields; value-typed and pointer-typed nested structs) as a mapping of one of the five Ver* schema types of aircraftlib, whose equally named fields sit at different offsets and pointer indices; the same Go type therefore serves several schema types within one process, in drawn order; extracted messages are laid out as the generated setters do, with drawn null struct pointers. Oracle: the schema's fields (read at the offsets the schema assigns) equal the inserted Go value, and Extract returns what those fields hold (a null struct pointer reads as defaults into a struct value and as nil into a pointer). Every case also extracts rpc Messages whose selected Return / Finish struct pointer is null and a null aircraftlib.Defaults struct and compares with the generated accessors (non-zero schema defaults). Non-trivial: some view type was used for two or more schema types.",
-	Quick:    3000, Thorough: 30000,
+	Rule:  "2-10 operations, each inserting a value of, or extracting into, one of five small Go view types (data fields; value-typed and pointer-typed nested structs) as a mapping of one of the five Ver* schema types of aircraftlib, whose equally named fields sit at different offsets and pointer indices; the same Go type therefore serves several schema types within one process, in drawn order; extracted messages are laid out as the generated setters do, with drawn null struct pointers. Oracle: the schema's fields (read at the offsets the schema assigns) equal the inserted Go value, and Extract returns what those fields hold (a null struct pointer reads as defaults into a struct value and as nil into a pointer). Every case also extracts rpc Messages whose selected Return / Finish struct pointer is null and a null aircraftlib.Defaults struct and compares with the generated accessors (non-zero schema defaults). Non-trivial: some view type was used for two or more schema types.",
+	Quick: 3000, Thorough: 30000,
 	Gen: func(t *rapid.T) viewCase {
 		var c viewCase
 		for i, n := 0, rapid.IntRange(2, 10).Draw(t, "n"); i < n; i++ {
